@@ -6,6 +6,7 @@ import Mathlib.Algebra.Star.Rat
 import Mathlib.Tactic.NormNum
 import SpecVerif.Proofs.Lemmas.CRatField
 import SpecVerif.Proofs.Lemmas.Daniell
+import SpecVerif.Proofs.Lemmas.EigenCrit
 /-
   C03 — amplitude equivariance.
 
@@ -594,6 +595,56 @@ theorem daniell_bin_mean [CharZero K] (psd : List K) (P i : ℕ) (hP : 1 ≤ P) 
 example : daniell ([9, 1, 2, 3, 4, 5, 6, 7, 8] : List ℚ) 1 = [1, 3, 6] := by
   simp only [daniell, daniellLen, vec, List.length_cons, List.length_nil]
   norm_num [List.range_succ, daniellBin, daniellCount, daniellHi, daniellLo, sumR, nth, Finset.sum_range_succ]
+
+/-! ### 12. the AIC / MDL order selection of the subspace methods (`aic_eigen`, `mdl_eigen`, `NSIG = argmin + 1`)
+
+Scaling the data by `c` multiplies every singular value of the data matrix by `t = |c| > 0`.  Every criterion value then
+moves by the SAME constant (`2N·ln t` for AIC, `N·ln t` for MDL — not zero, because the code divides the `m − 1` tail values
+by `m`), so the position of the minimum, hence the signal-subspace dimension, is unchanged. -/
+
+/-- AIC values of the scaled singular values = AIC values + `2N ln t`, entry by entry -/
+theorem aic_eigen_scale {t : ℝ} (ht : 0 < t) (s : List ℝ) (hs : ∀ i, i < s.length → 0 < s.getD i 0) (N : ℕ) :
+    aicEigen (s.map (t * ·)) N = (aicEigen s N).map (· + 2 * N * Real.log t) := by
+  unfold aicEigen vec
+  rw [List.length_map, List.map_map]
+  apply List.map_congr_left
+  intro k hk
+  have hk' : k + 2 ≤ s.length := by have := List.mem_range.mp hk; omega
+  have hm : ((s.length - k : ℕ) : ℝ) ≠ 0 := Nat.cast_ne_zero.mpr (by omega)
+  simp only [Function.comp, List.length_map, EigenCritL.eigLnRatio_smul ht s hs k hk']
+  field_simp
+  ring
+
+/-- MDL values of the scaled singular values = MDL values + `N ln t` -/
+theorem mdl_eigen_scale {t : ℝ} (ht : 0 < t) (s : List ℝ) (hs : ∀ i, i < s.length → 0 < s.getD i 0) (N : ℕ) :
+    mdlEigen (s.map (t * ·)) N = (mdlEigen s N).map (· + N * Real.log t) := by
+  unfold mdlEigen vec
+  rw [List.length_map, List.map_map]
+  apply List.map_congr_left
+  intro k hk
+  have hk' : k + 2 ≤ s.length := by have := List.mem_range.mp hk; omega
+  have hm : ((s.length - k : ℕ) : ℝ) ≠ 0 := Nat.cast_ne_zero.mpr (by omega)
+  simp only [Function.comp, List.length_map, EigenCritL.eigLnRatio_smul ht s hs k hk']
+  field_simp
+  ring
+
+/-- **the subspace order decision does not depend on the amplitude**: with positive singular values, `NSIG` chosen by AIC
+or MDL is the same for `t·S` and `S` (any `t > 0`, any number of singular values, any sample size) -/
+theorem signal_space_crit_scale {t : ℝ} (ht : 0 < t) (s : List ℝ) (hs : ∀ i, i < s.length → 0 < s.getD i 0)
+    (NP : ℕ) (mdl : Bool) :
+    signalSpaceCrit (s.map (t * ·)) NP mdl = signalSpaceCrit s NP mdl := by
+  unfold signalSpaceCrit
+  cases mdl
+  · simp only [Bool.false_eq_true, if_false]
+    rw [aic_eigen_scale ht s hs, EigenCritL.argminFirst_shift]
+  · simp only [if_true]
+    rw [mdl_eigen_scale ht s hs, EigenCritL.argminFirst_shift]
+
+/-- non-vacuity: three positive singular values, two criterion values each -/
+example : (aicEigen ([4, 2, 1] : List ℝ) 10).length = 2 ∧ (∀ i, i < 3 → 0 < ([4, 2, 1] : List ℝ).getD i 0) := by
+  refine ⟨by simp [aicEigen], ?_⟩
+  intro i hi
+  interval_cases i <;> norm_num
 
 /-! ### instantiation at the executed scalar type `CRat`
 
